@@ -245,6 +245,12 @@ func ffOp(op, pat string, args []string, a *argTrack) string {
 		if pat != "zx" && *x != x0 {
 			return ffRes(z) + "!operand-modified"
 		}
+		// independent check: the stored value squares to x
+		var sq ff.Element
+		sq.Mul(z, z)
+		if sq != x0 {
+			return ffRes(z) + "!not-a-root"
+		}
 		return ffRes(z)
 	case "setbigint":
 		need(args, 1)
